@@ -66,7 +66,7 @@ type runRec struct {
 
 func main() {
 	ev.MainIsolated("C03", "exploration", 40*time.Minute, func(r *ev.Run) {
-		r.Rule("histories of 1..8 runs of gensign.Run (real regular handler) against ONE forwarded agent whose keyring the harness reads directly; pre-existing identities: plain keys of all types, foreign certificates, comments that are near-misses of the handler label (different case, truncation, other separator), empty; per run the CA returns 1..4 certificates (plus optionally a non-certificate key) and 0..5 comments; validity in {1 s, 59 s, 1 h, 12 h, 30 d, 90 d, 1 y, 10 y}; runs succeed or fail at a seeded point (CA error, CA panic, agent failure/close at a request index). After each run: identity set before/after compared, AddedKey constraints recorded by the agent checked, a signature made through the agent protocol with every listed certificate of the newest generation. distinct_nontrivial = distinct histories (by outcome pattern, certificate counts and validity) whose every run satisfied the oracle")
+		r.Rule("histories of 1..8 runs of gensign.Run (real regular handler) against ONE forwarded agent whose keyring the harness reads directly; pre-existing identities: plain keys of all types, foreign certificates, comments that are near-misses of the handler label (different case, truncation, other separator), empty; per run the CA returns 1..4 certificates (plus optionally a non-certificate key) and 0..5 comments; validity in {1 s, 59 s, 1 h, 12 h, 30 d, 90 d, 1 y, 10 y}; runs succeed or fail at a seeded point (CA error, CA panic, agent failure/close at a request index). After each run: identity set before/after compared, AddedKey constraints recorded by the agent checked, a signature made through the agent protocol with every listed certificate of the newest generation. Plus handlers whose agent keys carry 1..3 signing requests each (1..2 keys, 1..2 certificates per request, real agent/ssh AgentKeys), three successful runs in a row: every certificate returned for every request is held and usable, the previous generation is gone. distinct_nontrivial = distinct histories (by outcome pattern, certificate counts and validity) whose every run satisfied the oracle")
 		r.Assume("'ephemeral' is checked as the lifetime constraint sent to the agent (non-zero, >= validity)", "identities whose comment contains the handler label are the handler's own")
 		gen.Pool()
 		n := r.Pick(300, 6000)
@@ -86,6 +86,9 @@ func main() {
 			}(c, i)
 		}
 		wg.Wait()
+		if r.Want("multi") {
+			multi(r)
+		}
 		if r.Replay == nil && r.Counter("successful runs satisfying every post-condition") < int64(r.Pick(200, 4000)) {
 			r.Inconclusive("too few successful runs were observed")
 		}
